@@ -783,7 +783,7 @@ func fieldFidelity(r *vkit.Run, dir string) {
 				m := n*3 + j
 				ds := devSpec{
 					ID:   agd.DeviceID(fmt.Sprintf("e%d", m)),
-					Auth: m, Name: m / 2, Linked: m % 3, Ded: (m / 3) % 4, Hid: m%4 == 1, Filt: m%2 == 0,
+					Auth: m, Name: m / 2, Linked: m % 6, Ded: (m / 3) % 7, Hid: m%4 == 1, Filt: m%2 == 0,
 				}
 				if b > 0 {
 					ds.Auth, ds.Name = rng.IntN(nAuth), rng.IntN(nName)
@@ -796,6 +796,15 @@ func fieldFidelity(r *vkit.Run, dir string) {
 					d.LinkedIP = netip.AddrFrom4([4]byte{10, 1, byte(m >> 8), byte(m)})
 				case 2:
 					d.LinkedIP = netip.AddrFrom16([16]byte{0x20, 1, 0xd, 0xb8, 1, 0, 0, 0, 0, 0, 0, 0, 0, 0, byte(m >> 8), byte(m)})
+				case 3:
+					// IPv4-mapped IPv6 form, as a backend sending 16 bytes produces
+					d.LinkedIP = netip.AddrFrom16([16]byte{0, 0, 0, 0, 0, 0, 0, 0, 0, 0, 0xff, 0xff, 10, 4, byte(m >> 8), byte(m)})
+				case 4:
+					// link-local without zone
+					d.LinkedIP = netip.AddrFrom16([16]byte{0xfe, 0x80, 0, 0, 0, 0, 0, 0, 0, 0, 0, 0, 0, 1, byte(m >> 8), byte(m)})
+				case 5:
+					// IPv4-compatible form ::a.b.c.d
+					d.LinkedIP = netip.AddrFrom16([16]byte{0, 0, 0, 0, 0, 0, 0, 0, 0, 0, 0, 0, 10, 5, byte(m >> 8), byte(m)})
 				}
 				switch ds.Ded {
 				case 1:
@@ -807,6 +816,19 @@ func fieldFidelity(r *vkit.Run, dir string) {
 					}
 				case 3:
 					d.DedicatedIPs = []netip.Addr{}
+				case 4:
+					d.DedicatedIPs = []netip.Addr{netip.AddrFrom16([16]byte{0, 0, 0, 0, 0, 0, 0, 0, 0, 0, 0xff, 0xff, 10, 6, byte(m >> 8), byte(m)})}
+				case 5:
+					d.DedicatedIPs = []netip.Addr{
+						netip.AddrFrom16([16]byte{0xfe, 0x80, 0, 0, 0, 0, 0, 0, 0, 0, 0, 0, 0, 2, byte(m >> 8), byte(m)}),
+						netip.AddrFrom16([16]byte{0, 0, 0, 0, 0, 0, 0, 0, 0, 0, 0, 0, 10, 7, byte(m >> 8), byte(m)}),
+					}
+				case 6:
+					// the mapped and the plain form of one address
+					d.DedicatedIPs = []netip.Addr{
+						netip.AddrFrom16([16]byte{0, 0, 0, 0, 0, 0, 0, 0, 0, 0, 0xff, 0xff, 10, 8, byte(m >> 8), byte(m)}),
+						netip.AddrFrom4([4]byte{10, 8, byte(m >> 8), byte(m)}),
+					}
 				}
 				if ds.Hid {
 					d.HumanIDLower = agd.HumanIDLower(fmt.Sprintf("auto-dev--%d", m))
@@ -869,6 +891,35 @@ func fieldFidelity(r *vkit.Run, dir string) {
 			if err1 != nil {
 				r.Violation("lookup:device-id:missing", "device of a full synchronisation is not found: "+err1.Error(), w)
 				continue
+			}
+			// lookups by the device's addresses, in the stored form and in the
+			// other form of IPv4 / IPv4-mapped addresses
+			ipKeys := []lkey{}
+			addForms := func(kd kind, ip netip.Addr) {
+				if !ip.IsValid() {
+					return
+				}
+				ipKeys = append(ipKeys, lkey{K: kd, IP: ip})
+				if ip.Is4In6() {
+					ipKeys = append(ipKeys, lkey{K: kd, IP: ip.Unmap()})
+				} else if ip.Is4() {
+					ipKeys = append(ipKeys, lkey{K: kd, IP: netip.AddrFrom16(ip.As16())})
+				}
+			}
+			addForms(kLinked, d1.LinkedIP)
+			for _, ip := range d1.DedicatedIPs {
+				addForms(kDed, ip)
+			}
+			for _, ik := range ipKeys {
+				ap, ad, ae := doLookup(db1, ik)
+				bp, bd, be := doLookup(db2, ik)
+				a1, a2 := normalise(ap, ad, ae), normalise(bp, bd, be)
+				r.Bucket("restart_ip_form_lookups", 1)
+				if a1.short() != a2.short() {
+					r.Violation("restart:lookup:"+kindName[ik.K]+":found-mismatch",
+						fmt.Sprintf("lookup %s answered %s when the cache was written and %s after the restart", ik, a1.short(), a2.short()),
+						map[string]any{"case": w, "key": ik.String(), "before": a1, "after": a2})
+				}
 			}
 			nd := compareRecords(r, "restart:field:", w, p1, d1, p2, d2, b < 2)
 			r.Bucket("restart_field_cases", 1)
